@@ -15,6 +15,7 @@ import (
 	"path/filepath"
 	"sort"
 	"sync"
+	"sync/atomic"
 	"time"
 
 	"github.com/postalsys/muti-metroo/internal/agent"
@@ -50,6 +51,9 @@ import (
 //	mesh shell <payload>        Agent.OpenShellStream running `echo <hex of payload>` on the exit;
 //	                            echo = the hex text came back on stdout (leak looks for the hex text)
 //	   -> ok echo <0|1> leak <n> seq <up ok> <down ok>
+//	mesh udpzero <payload>      ACTIVE transit: the tap overwrites the ephemeral key field of UDP_OPEN and
+//	                            UDP_OPEN_ACK with zeros before the transit processes (relays) them; then as
+//	                            `mesh udp`                                   -> ok echo <0|1> leak <n>
 //	   leak = number of frames at B (any type) whose payload contains the application payload;
 //	   per direction: sum over data frames of (payload length - 28), and whether every data frame
 //	   carries the sender's direction prefix and consecutive counters from 0 per stream.
@@ -97,6 +101,7 @@ type c04Mesh struct {
 	udpEcho  net.PacketConn
 	socks    string
 	fwd      string
+	zeroKeys atomic.Bool // active mode: zero the key fields of UDP_OPEN / UDP_OPEN_ACK
 	startErr error
 }
 
@@ -215,6 +220,21 @@ func c04StartMesh() *c04Mesh {
 	}
 	// tap before anybody connects to B
 	agent.VerifC04Tap(m.b, func(peerID identity.AgentID, f *protocol.Frame) {
+		if m.zeroKeys.Load() {
+			var zero [protocol.EphemeralKeySize]byte
+			switch f.Type {
+			case protocol.FrameUDPOpen:
+				if o, err := protocol.DecodeUDPOpen(f.Payload); err == nil {
+					o.EphemeralPubKey = zero
+					f.Payload = o.Encode()
+				}
+			case protocol.FrameUDPOpenAck:
+				if a, err := protocol.DecodeUDPOpenAck(f.Payload); err == nil {
+					a.EphemeralPubKey = zero
+					f.Payload = a.Encode()
+				}
+			}
+		}
 		m.mu.Lock()
 		m.log = append(m.log, c04Frame{peerID, f.Type, f.StreamID, append([]byte{}, f.Payload...)})
 		m.mu.Unlock()
@@ -422,6 +442,22 @@ func (m *c04Mesh) udp(payload []byte) (bool, error) {
 // summarise the tap log of one op
 func (m *c04Mesh) summary(kind string, payload []byte, echo bool) string {
 	structural := kind == "file" || kind == "shell" // byte counts depend on metadata/compression: report sequence checks only
+	if kind == "udpzero" {
+		m.mu.Lock()
+		n := 0
+		for _, f := range m.log {
+			if len(payload) >= 8 && bytes.Contains(f.payload, payload) {
+				n++
+			}
+		}
+		m.log = nil
+		m.mu.Unlock()
+		e := 0
+		if echo {
+			e = 1
+		}
+		return fmt.Sprintf("ok echo %d leak %d", e, n)
+	}
 	m.mu.Lock()
 	log := m.log
 	m.log = nil
@@ -514,6 +550,10 @@ func c04Mesh3(kind string, payload []byte) string {
 		echo, err = m.tcp(payload)
 	case "udp":
 		echo, err = m.udp(payload)
+	case "udpzero":
+		m.zeroKeys.Store(true)
+		echo, err = m.udp(payload)
+		m.zeroKeys.Store(false)
 	case "fwd":
 		echo, err = m.forward(payload)
 	case "file":
@@ -522,9 +562,12 @@ func c04Mesh3(kind string, payload []byte) string {
 		marker = []byte(hex.EncodeToString(payload))
 		echo, err = m.shell(marker)
 	}
-	if err != nil {
+	if err != nil && kind != "udpzero" {
 		// the tunnel broke: still report what the transit saw (a leak must not hide behind an error)
 		fmt.Fprintln(os.Stderr, "c04 mesh", kind, "error:", err)
+		echo = false
+	}
+	if err != nil {
 		echo = false
 	}
 	time.Sleep(100 * time.Millisecond)
@@ -588,7 +631,7 @@ func init() {
 					return "err"
 				}
 				return "key"
-			case f[0] == "mesh" && len(f) == 3 && (f[1] == "tcp" || f[1] == "udp" || f[1] == "fwd" || f[1] == "file" || f[1] == "shell"):
+			case f[0] == "mesh" && len(f) == 3 && (f[1] == "tcp" || f[1] == "udp" || f[1] == "udpzero" || f[1] == "fwd" || f[1] == "file" || f[1] == "shell"):
 				return c04Mesh3(f[1], unhexTok(f[2]))
 			}
 			return "bad-op"
@@ -629,7 +672,39 @@ func init() {
 					fmt.Fprintf(w, "mesh shell %s\n", h(r.bytes(r.pick(16, 32, 200))))
 				}
 			}
+			fmt.Fprintf(w, "mesh udpzero %s\n", h(r.bytes(r.pick(32, 100, 1000))))
 			_ = sort.Ints
+		},
+		// Facts: what each side does WITHOUT a peer key, probed on the compiled code.
+		Facts: func(w *bufio.Writer) {
+			var peerID identity.AgentID
+			probe := []byte("verif-c04-probe-payload")
+			as := udp.NewAssociation(1, 1, peerID)
+			ct, err := as.Encrypt(probe)
+			as.Close()
+			exitUDP := err == nil && bytes.Equal(ct, probe)
+			se := icmp.NewSession(1, 1, peerID, net.IPv4(127, 0, 0, 1))
+			ct, err = se.Encrypt(probe)
+			se.Close()
+			exitICMP := err == nil && bytes.Equal(ct, probe)
+			priv, pub, kerr := crypto.GenerateEphemeralKeypair()
+			must(kerr)
+			var zero [32]byte
+			sk, derr := agent.VerifC04DeriveICMP(&priv, pub, zero, 5)
+			ingress := sk == nil && derr == nil
+			b := func(x bool) string {
+				if x {
+					return "true"
+				}
+				return "false"
+			}
+			fmt.Fprintf(w, "-- GENERATED by `harness c04 facts`: probes of the compiled code under %s. Do not edit.\n", c03RepoRoot())
+			fmt.Fprintf(w, "namespace MM.Gen.C04\n")
+			fmt.Fprintf(w, "/-- agent.deriveICMPSessionKey(zero remote key) returned (nil, nil): the ingress goes on WITHOUT a session key -/\n")
+			fmt.Fprintf(w, "def ingressFallsBack : Bool := %s\n", b(ingress))
+			fmt.Fprintf(w, "/-- udp.Association.Encrypt / icmp.Session.Encrypt without a session key return their input (udp %v, icmp %v) -/\n", exitUDP, exitICMP)
+			fmt.Fprintf(w, "def exitFallsBack : Bool := %s\n", b(exitUDP || exitICMP))
+			fmt.Fprintf(w, "end MM.Gen.C04\n")
 		},
 	})
 }
